@@ -41,7 +41,8 @@ class TS:
             return self.tz
         if name in ('isoformat', 'timestamp', 'to_datetime64', 'to_pydatetime', 'tz_localize'):
             return PyCallable(lambda it, a, k, n: self, name)
-        raise AbsRaise(ExcVal('AttributeError', (f"'Timestamp' object has no attribute '{name}'",)), node)
+        from .models_xr import missing_attr
+        missing_attr('pandas', 'Timestamp', name, node)
 
     def abs_truth(self):
         return True
@@ -295,6 +296,12 @@ def register(M, h):
             unit = {'s': 1, 'S': 1, 'sec': 1, 'second': 1, 'seconds': 1, 'min': 60, 'T': 60, 'h': 3600, 'H': 3600,
                     'D': 86400, 'd': 86400, 'ms': Fr(1, 1000)}[m.group(2)]
             period = Fr(m.group(1)) * unit
+            if period <= 0:
+                raise AbsRaise(ExcVal('ValueError', ('window must be positive',)), node)
+            return Rolling(v, period, mp, kw2)
+        if isinstance(window, Sc) and window.dtype == 'm8':
+            # a timedelta window is the same offset window as its string spelling
+            period = window.value()
             if period <= 0:
                 raise AbsRaise(ExcVal('ValueError', ('window must be positive',)), node)
             return Rolling(v, period, mp, kw2)
